@@ -29,3 +29,7 @@ add("C04", "SEQ", "model_checking", "explicit-state BFS (bounded depth) applying
 add("C08", "SEQ", "model_checking", "explicit-state BFS over session histories on the implementation (bounded depth) with virtual time driving the real cache timers",
     "All histories up to the stated depth of POST / PATCH / GET / PUT / DELETE on up to three sessions with correct, stale, future, malformed and absent offsets and state tokens, session ids used through another repository, expiry (virtual clock past the grace period, real cache timer) and eviction (POST beyond RepoUploadMax in {1,2,3}, real pruneCount goroutine) are explored on both stores against a byte-exact session model; residue (temp files, partial blobs, ended ids) is checked in every state. The schedule part (expiry/eviction racing with a request) is explored by the SCHED scenarios of C12/C20.",
     TRUSTED, "DESIGN.md section 4 C08")
+
+add("C15", "SEQ", "model_checking", "exhaustive enumeration of a request grammar from several repository states on fresh instances",
+    "Every request of a finite grammar (methods x routes x repository names inside and outside the OCI grammar x references, digests, session ids, state tokens, ranges, paging and mount parameters at and beyond their bounds x bodies) is executed from each of 4-5 prepared repository states on both stores; no panic, no 5xx, OCI error documents with registered (and, where unambiguous, the named) codes, and only grammar names may reach the store or the filesystem.",
+    TRUSTED + " The grammar is a finite product, not every syntactically possible request.", "DESIGN.md section 4 C15")
